@@ -4,6 +4,7 @@ from rules import C09 as C09mod, C10 as C10mod, C20 as C20mod
 from spec import v2parse
 
 LEVEL = 'proof'
+FIXTURES = ['F3', 'F8']
 ADDR = 'v2::model::Addresses'
 
 
